@@ -96,7 +96,23 @@ var dicts = []dictT{
 	{"A=2,B=1", map[string]string{"A": "2", "B": "1"}},
 }
 
+// shape of the layout under substitution: "" (two steps, two inspections) | inspections-only | steps-only
+var shape string
+
+var shapes = []string{"", "inspections-only", "steps-only"}
+
 func baseLayout() intoto.Layout {
+	l := fullBaseLayout()
+	switch shape {
+	case "inspections-only":
+		l.Steps = nil
+	case "steps-only":
+		l.Inspect = nil
+	}
+	return l
+}
+
+func fullBaseLayout() intoto.Layout {
 	k1, k2 := gen.Key("ed1"), gen.Key("ed2")
 	rules := func(tag string) [][]string {
 		return [][]string{{"MATCH", tag + "p", "IN", tag + "sp", "WITH", "PRODUCTS", "IN", tag + "dp", "FROM", tag + "st"}, {"ALLOW", tag + "q"}}
@@ -131,6 +147,7 @@ type Case struct {
 	Dict     string `json:"dict"`
 	Choices  []int  `json:"choices,omitempty"`
 	Before   string `json:"before,omitempty"` // dictionary of an earlier call in the same process
+	Shape    string `json:"shape,omitempty"`  // layout shape ("" = two steps and two inspections)
 }
 
 func fullAt(label string) bool { return strings.HasPrefix(label, "SubstituteParameters#") }
@@ -143,6 +160,11 @@ func once(pos, text string, d dictT, ch *mcx.Chooser) (obs, sig string) {
 // onceAfter: like once, but an unrelated call with dictionary before (on another copy of the same
 // layout) has been made earlier in the process; the result must not depend on it.
 func onceAfter(before *dictT, pos, text string, d dictT, ch *mcx.Chooser) (obs, sig string) {
+	defer func() {
+		if sig != "" && shape != "" {
+			sig += "|layout-with-" + shape
+		}
+	}()
 	if before != nil {
 		prior := baseLayout()
 		for _, l := range gen.StringLeaves(&prior) {
@@ -245,6 +267,17 @@ func silence() func() {
 
 func run(c *mcx.Ctx) {
 	defer silence()()
+	var n int64
+	for _, sh := range shapes {
+		shape = sh
+		runShape(c, &n)
+	}
+	shape = ""
+}
+
+func runShape(c *mcx.Ctx, np *int64) {
+	n := *np
+	defer func() { *np = n }()
 	base := baseLayout()
 	var positions []string
 	for _, l := range gen.StringLeaves(&base) {
@@ -254,7 +287,6 @@ func run(c *mcx.Ctx) {
 	c.Note("positions", len(positions))
 	c.Note("texts", len(texts))
 	c.Note("dictionaries", len(dicts))
-	var n int64
 	for _, pos := range positions {
 		for _, text := range texts {
 			for _, d := range dicts {
@@ -289,9 +321,9 @@ func run(c *mcx.Ctx) {
 				c.Outcome(cls)
 				if firstSig != "" {
 					c.Violation(firstSig, fmt.Sprintf("SubstituteParameters with text %q at %s and dictionary %s %v", text, pos, d.Name, d.D),
-						Case{Position: pos, Text: text, Dict: d.Name, Choices: firstCh}, firstObs)
+						Case{Position: pos, Text: text, Dict: d.Name, Choices: firstCh, Shape: shape}, firstObs)
 				} else if len(outs) > 1 {
-					c.Violation("C18|order-dependent", fmt.Sprintf("result depends on dictionary order: text %q at %s, dictionary %s", text, pos, d.Name), Case{Position: pos, Text: text, Dict: d.Name}, "differs")
+					c.Violation("C18|order-dependent", fmt.Sprintf("result depends on dictionary order: text %q at %s, dictionary %s", text, pos, d.Name), Case{Position: pos, Text: text, Dict: d.Name, Shape: shape}, "differs")
 				}
 				if c.WantSample() && n%2311 == 17 {
 					c.Sample(map[string]any{"position": pos, "text": text, "dictionary": d.D, "orders": ex.Executions, "reference_result": refSubstitute(text, d.D)})
@@ -333,7 +365,7 @@ func histories(c *mcx.Ctx, positions []string, n *int64) {
 					c.Outcome("history:" + map[bool]string{true: "ok", false: "violation"}[sig == ""])
 					if sig != "" {
 						c.Violation(sig, fmt.Sprintf("SubstituteParameters with text %q at %s and dictionary %s %v, after a call with dictionary %s %v", text, pos, d.Name, d.D, dicts[i].Name, dicts[i].D),
-							Case{Position: pos, Text: text, Dict: d.Name, Before: dicts[i].Name}, obs)
+							Case{Position: pos, Text: text, Dict: d.Name, Before: dicts[i].Name, Shape: shape}, obs)
 					}
 				}
 			}
@@ -347,6 +379,8 @@ func replay(c *mcx.Ctx, raw json.RawMessage) (string, string) {
 	if err := json.Unmarshal(raw, &cs); err != nil {
 		return "bad case: " + err.Error(), ""
 	}
+	shape = cs.Shape
+	defer func() { shape = "" }()
 	var before *dictT
 	for i := range dicts {
 		if cs.Before != "" && dicts[i].Name == cs.Before {
@@ -367,7 +401,7 @@ func replay(c *mcx.Ctx, raw json.RawMessage) (string, string) {
 func init() {
 	mcx.Register(&mcx.Driver{
 		ID: "C18", Run: run, Replay: replay,
-		Rule: "full product: position (every string leaf of a 2-step / 2-inspection layout found by a reflective walk: the four target fields at every index and every other field) x text (30-element catalogue: adjacent, nested-looking, unterminated, unknown, case-differing markers, values, escapes) x dictionary (26-element catalogue: 0-6 entries, values containing markers, empty values, seven invalid names, six that a lossy digest of a dictionary confuses), " +
+		Rule: "for each of three layout shapes (two steps and two inspections; inspections only; steps only) the full product: position (every string leaf of the layout found by a reflective walk: the four target fields at every index and every other field) x text (30-element catalogue: adjacent, nested-looking, unterminated, unknown, case-differing markers, values, escapes) x dictionary (26-element catalogue: 0-6 entries, values containing markers, empty values, seven invalid names, six that a lossy digest of a dictionary confuses), " +
 			"each under every iteration order of the range over the dictionary (all n! for n<=4, first-element x direction above). Then two-call histories: every ordered pair of distinct valid dictionaries x every text at one step and one inspection position, the first dictionary used in an earlier call of the same process. A case = (position,text,dictionary[,earlier dictionary]), distinct by construction; non-trivial = text contains '{' and the dictionary is non-empty. states = cases, transitions = executions + choice points.",
 		Assumptions: []string{"reference: one left-to-right scan, '{' + [A-Za-z0-9_-]+ + '}' replaced iff the name is supplied, applied to expected_materials, expected_products, expected_command, run only"},
 	})
